@@ -5,7 +5,7 @@
     AddressInAccessList, SlotInAccessList, GetTransientState) on state [s]; [wf] is an invariant of
     every reachable state (C08_wf_reachable). *)
 From Coq Require Import List ZArith NArith Bool.
-From Kardia Require Import C08.Model C08.ProofsEqv C08.ProofsUndo C08.ProofsRevert C08.Proofs.
+From Kardia Require Import C08.Model C08.ProofsEqv C08.ProofsInv C08.ProofsUndo C08.ProofsRevert C08.Proofs C08.ProofsCoh.
 Import ListNotations.
 Local Open Scope N_scope.
 
@@ -56,7 +56,7 @@ Print Assumptions C08_copy_independent.
 
 (** PARTIAL: a fresh copy shows the observables of the original if the objects Copy leaves
     behind agree with the account trie ([clean_unkept]; its reachability is in Open.v) *)
-Theorem C08_copy_observables_partial : forall s, clean_unkept s -> forall q, ask (copy s) q = ask s q.
+Theorem C08_copy_observables_partial : forall s, st_crashed s = false -> clean_unkept s -> forall q, ask (copy s) q = ask s q.
 Proof. exact copy_observables. Qed.
 Print Assumptions C08_copy_observables_partial.
 
@@ -88,3 +88,28 @@ Theorem C08_ripemd_exception :
   is_some (st_trie (run surviving_only ripemd_world) ripemd) = true.
 Proof. exact ripemd_exception. Qed.
 Print Assumptions C08_ripemd_exception.
+
+(** no reachable state has hit a nil dereference / index panic inside the package — neither in a
+    forward operation nor in any journal revert ([reachable] allows every operation, including the
+    two documented API panics, which leave the flag untouched) *)
+Theorem C08_no_internal_crash : forall s, reachable s -> st_crashed s = false.
+Proof. exact no_internal_crash. Qed.
+Print Assumptions C08_no_internal_crash.
+
+(** cache coherence of every reachable state: the originStorage cache of every live, deleted or
+    journalled (resetObjectChange.prev) object agrees with the object's storage trie, and
+    journal.dirties counts at least the journal entries of every address *)
+Theorem C08_cache_coherent : forall s, reachable s -> SI s.
+Proof. exact cache_coherent. Qed.
+Print Assumptions C08_cache_coherent.
+
+(** REFUTED for copies taken in the middle of a transaction: the copy of a state with a pending
+    self-destruct commits the account (the original deletes it), keeps the suicided flag on a
+    live object, and a copy of THAT state differs from it on HasSuicided *)
+Theorem C08_copy_midtx_refuted :
+  reachable midtx_c /\
+  st_journal midtx_s <> nil /\
+  ask midtx_c (QSuicided 1) = AB true /\ ask (copy midtx_c) (QSuicided 1) = AB false /\
+  is_some (snd (commit true (copy midtx_s)) 1) = true /\ is_some (snd (commit true midtx_s) 1) = false.
+Proof. exact copy_midtx_refuted. Qed.
+Print Assumptions C08_copy_midtx_refuted.
